@@ -667,6 +667,8 @@ func deepFamilies(depth int) map[string]string {
 	return map[string]string{
 		"search-not":        "SEARCH " + rep("NOT ", depth) + "ALL",
 		"search-or":         "SEARCH " + rep("OR ALL ", depth) + "ALL",
+		"search-or-left":    "SEARCH " + rep("OR ", depth) + "ALL" + rep(" ALL", depth),
+		"search-or-not":     "SEARCH " + rep("OR SEEN NOT ", depth) + "ALL",
 		"search-parens":     "SEARCH " + rep("(", depth) + "ALL" + rep(")", depth),
 		"search-not-parens": "SEARCH " + rep("NOT (", depth) + "ALL" + rep(")", depth),
 		"fetch-parens":      "FETCH 1 " + rep("(", depth) + "FLAGS" + rep(")", depth),
@@ -853,7 +855,18 @@ func body(w *hx.W) {
 				continue
 			}
 			for _, st := range []string{"auth", "selected"} {
+				nb := srv.B.NCalls()
 				e.hostile(fmt.Sprintf("deep-nesting/%s", name), st, []string{ln}, fmt.Sprintf("%s depth %d", name, dpt))
+				// nesting beyond the bound must be refused by the protocol layer: the command must not reach the backend
+				// (body-section is a long part path, not nesting)
+				if dpt > 1000 && name != "body-section" {
+					for _, c := range srv.B.CallsSince(nb) {
+						switch c.Method {
+						case "Search", "Fetch", "List", "Status", "Append", "Store", "Create":
+							w.Violation("over-deep-nesting-accepted@"+name, fmt.Sprintf("%s with nesting depth %d was accepted and handed to Session.%s: nesting is not bounded", name, dpt, c.Method), nil)
+						}
+					}
+				}
 				w.CaseStr(fmt.Sprintf("deep%s%d%s", name, dpt, st))
 				w.Class("hostile/deep/" + name)
 			}
